@@ -119,8 +119,16 @@ Fixpoint resources_filter (d : db) (res : list (Z * Z)) (l : list rp) : option (
       resources_filter d rest (filter (fun r => memZ (rp_uuid r) ok) l)
   end.
 
-(* objects/resource_provider.py:_get_all_by_filters_from_db; None = 400 (TraitNotFound / ResourceClassNotFound) *)
+(* every trait and resource class named by the filters exists: the names are translated to ids FIRST
+   (required traits, forbidden traits, resource classes), whatever the other filters are *)
+Definition names_known (d : db) (f : rp_filters) : bool :=
+  forallb (forallb (trait_exists d)) (f_required f) && forallb (trait_exists d) (f_forbidden f)
+  && forallb (fun x => rc_exists d (fst x)) (f_resources f).
+
+(* objects/resource_provider.py:_get_all_by_filters_from_db; None = 400 (TraitNotFound / ResourceClassNotFound).
+   (the class lookup inside resources_filter can no longer fail) *)
 Definition get_all_by_filters (d : db) (f : rp_filters) : option (list Z) :=
+  if negb (names_known d f) then None else
   let by_name := match f_name f with NameIs n => filter (fun r => rp_name r =? n) (rps d) | _ => rps d end in   (* `if name:` *)
   let by_uuid := match f_uuid f with Some u => filter (fun r => rp_uuid r =? u) by_name | None => by_name end in
   match (match f_in_tree f with
@@ -132,11 +140,9 @@ Definition get_all_by_filters (d : db) (f : rp_filters) : option (list Z) :=
          end) with
   | None => Some []                                            (* unknown in_tree: empty list *)
   | Some l1 =>
-      if negb (forallb (forallb (trait_exists d)) (f_required f)) then None else
       let with_traits := provider_ids_matching_required_traits d (f_required f) in
       if negb (is_nil (f_required f)) && is_nil with_traits then Some [] else
       let l2 := if is_nil (f_required f) then l1 else filter (fun r => memZ (rp_uuid r) with_traits) l1 in
-      if negb (forallb (trait_exists d) (f_forbidden f)) then None else
       let bad_traits := if is_nil (f_forbidden f) then [] else get_provider_ids_having_any_trait d (f_forbidden f) in
       let l3 := filter (fun r => negb (memZ (rp_uuid r) bad_traits)) l2 in
       let in_aggs := provider_ids_matching_aggregates d (f_member_of f) in
